@@ -892,9 +892,12 @@ func (it *Interp) opExchangeBatch(op *Op) {
 		for _, s := range sel {
 			old := it.M.Ents[s].Mask
 			if am&old != 0 || rm&^old != 0 {
-				panic(fmt.Sprintf("bad op: batch %v not applicable to selected entity #%d %s", op, s, names(old)))
+				valid = false // duplicate add / removal of a missing component for some selected entity: must be rejected as a whole
 			}
 		}
+	}
+	if valid {
+		am, rm := maskOf(add), maskOf(rem)
 		it.sel = map[int]bool{}
 		it.batch = true
 		for _, s := range sel {
@@ -1088,10 +1091,14 @@ func (it *Interp) opSetRelBatch(op *Op) {
 		it.sel = map[int]bool{}
 		it.batch = true
 		for _, s := range sel {
-			e := &it.M.Ents[s]
-			if e.Mask&given != given {
-				panic(fmt.Sprintf("bad op: setRelBatch %v not applicable to #%d %s", op, s, names(e.Mask)))
+			if it.M.Ents[s].Mask&given != given {
+				valid = false // some selected entity lacks the relation component
 			}
+		}
+	}
+	if valid {
+		for _, s := range sel {
+			e := &it.M.Ents[s]
 			it.sel[s] = true
 			var chg uint16
 			for _, r := range op.Rels {
